@@ -39,6 +39,10 @@ func main() {
 		}
 		return
 	}
+	if *dump == "memwrites" {
+		dumpMemWrites(p)
+		return
+	}
 	if *dump == "panics" {
 		dumpPanicSites(p)
 		return
